@@ -3307,7 +3307,8 @@ class Evaluator:
         if e.kind in ("raise", "call") and AND(live, inst(e.live)) == FALSE:
             # a path of the helper that the arguments of this call rule out (`if axis not in ("time", "frequency"): raise` with axis="time")
             return Event(e.kind, FALSE, inst(e.term), e.node, (), -1)
-        ne = Event(e.kind, AND(live, inst(e.live)), inst(e.term), e.node,
+        lv_ = AND(live, inst(e.live))
+        ne = Event(e.kind, lv_, prune(inst(e.term), lv_), e.node,
                    tuple(self.loop_stack) + tuple(idmap.get(x, x) for x in e.loops), len(self.events),
                    tuple(self.try_stack) + tuple(idmap.get(x, x) for x in e.handlers),
                    tuple(self.handler_stack) + tuple(idmap.get(x, x) for x in e.in_handler))
